@@ -1,3 +1,271 @@
+/-
+  Lemmas for the two hand-written decoders of C05: QueuedState (length-prefixed blob lists,
+  sleep/wake commands located by offset) and NodeInfo (strict head, optional tail).
+-/
 import MM.Lemmas.C05
+
 namespace MM.C05
+open MM
+
+/-- top-level decoder on an encoding followed by arbitrary trailing bytes -/
+theorem decodeTop_append {c : Codec α} (hc : c.Sound) (minLen : Nat) (a : α) (rest : Bytes)
+    (hwf : c.wf a = true) (hlen : minLen ≤ (c.enc a).length) :
+    decodeTop minLen c (c.enc a ++ rest) = some a := by
+  unfold decodeTop
+  rw [if_neg (by simp; omega), hc a rest hwf]; rfl
+
+theorem lp2_wf (b : Bytes) (h : b.length < 65536) : (lp 2).wf b = true := by
+  simp [lp]; omega
+
+/-- a list of blobs that each decode to their item parses back to the list -/
+theorem blobList_sound {α : Type} (dec : Bytes → Option α) (enc : α → Bytes) (l : List α)
+    (rest : Bytes) (h : ∀ a ∈ l, dec (enc a) = some a ∧ (enc a).length < 65536) :
+    blobList dec l.length ((l.map fun a => (lp 2).enc (enc a)).flatten ++ rest) = some (l, rest) := by
+  induction l with
+  | nil => simp [blobList]
+  | cons x xs ih =>
+    have hx := h x (by simp)
+    have hxs := ih (fun a ha => h a (by simp [ha]))
+    simp only [List.map_cons, List.flatten_cons, List.length_cons, blobList, List.append_assoc]
+    rw [lp_sound 2 (enc x) _ (lp2_wf _ hx.2)]
+    dsimp only
+    rw [hxs, hx.1]
+
+theorem encBlobs_dec {α : Type} (dec : Bytes → Option α) (enc : α → Bytes) (l : List α)
+    (rest : Bytes) (hl : l.length < 65536)
+    (h : ∀ a ∈ l, dec (enc a) = some a ∧ (enc a).length < 65536) :
+    ∃ r0, u16.dec (encBlobs enc l ++ rest) = some (l.length, r0) ∧
+      blobList dec l.length r0 = some (l, rest) := by
+  refine ⟨(l.map fun a => (lp 2).enc (enc a)).flatten ++ rest, ?_, blobList_sound dec enc l rest h⟩
+  have := be_sound 2 l.length ((l.map fun a => (lp 2).enc (enc a)).flatten ++ rest)
+    (by simp [be]; omega)
+  simpa [encBlobs, be, List.append_assoc] using this
+
+theorem encAll_id16_length (l : List Bytes) (h : l.all id16.wf = true) :
+    (encAll id16 l).length = 16 * l.length := by
+  induction l with
+  | nil => rfl
+  | cons x xs ih =>
+    have h' : x.length = 16 ∧ xs.all id16.wf = true := by simpa [bytesN] using h
+    have : encAll id16 (x :: xs) = x ++ encAll id16 xs := by simp [encAll, bytesN]
+    rw [this, List.length_append, ih h'.2, h'.1]
+    simp; omega
+
+/-- a well-formed sleep/wake command encodes to exactly 97 + 16·|SeenBy| bytes -/
+theorem cmd_enc_length (c : Cmd) (h : sleepC.wf c = true) :
+    (sleepC.enc c).length = 97 + 16 * c.2.2.2.2.length := by
+  obtain ⟨origin, id, ts, sig, seen⟩ := c
+  have hw : (id16.wf origin && (u64.wf id && (u64.wf ts && ((bytesN 64).wf sig && ids.wf seen)))) = true := h
+  simp only [Bool.and_eq_true] at hw
+  obtain ⟨ho, _, _, hs, hsb⟩ := hw
+  have ho' : origin.length = 16 := by simpa [bytesN] using ho
+  have hs' : sig.length = 64 := by simpa [bytesN] using hs
+  have hsb' : seen.all id16.wf = true := by
+    have : (decide (seen.length < 256 ^ 1) && seen.all id16.wf) = true := hsb
+    simp only [Bool.and_eq_true] at this
+    exact this.2
+  have := encAll_id16_length seen hsb'
+  simp [sleepC, seq, be, bytesN, listN, ho', hs'] at this ⊢
+  omega
+
+theorem cmd_minLen : sleepC.MinLen cmdMinLen := by unfold sleepC cmdMinLen; codec_minlen
+
+theorem blobList_shrinks {α : Type} (dec : Bytes → Option α) :
+    ∀ (n : Nat) (bs : Bytes) (l : List α) (rest : Bytes),
+      blobList dec n bs = some (l, rest) → rest.length ≤ bs.length := by
+  intro n
+  induction n with
+  | zero =>
+    intro bs l rest h
+    simp only [blobList] at h
+    injection h with h; injection h with h1 h2
+    subst h2; simp
+  | succ n ih =>
+    intro bs l rest h
+    simp only [blobList] at h
+    split at h
+    · cases h
+    · next blob r hb =>
+      split at h
+      · cases h
+      · next l' r' hr =>
+        injection h with h; injection h with h1 h2
+        subst h2
+        have := ih _ _ _ hr
+        have := lp_shrinks 2 _ _ _ hb
+        omega
+
+/-! ### NodeInfo optional tail -/
+
+theorem str_enc_ne_nil (s rest : Bytes) : (str.enc s ++ rest).isEmpty = false := by
+  simp [lp, beN, leN]
+
+theorem flLoop_sound (l : List (Bytes × Bytes)) (rest : Bytes) (hrest : rest.isEmpty = false)
+    (h : l.all flC.wf = true) :
+    flLoop l.length (encAll flC l ++ rest) = (l, rest, false) := by
+  induction l with
+  | nil => simp [flLoop, encAll]
+  | cons x xs ih =>
+    have hx : flC.wf x = true ∧ xs.all flC.wf = true := by simpa using h
+    have hx' : str.wf x.1 = true ∧ str.wf x.2 = true := by simpa [flC, seq] using hx.1
+    have e : encAll flC (x :: xs) ++ rest = str.enc x.1 ++ (str.enc x.2 ++ (encAll flC xs ++ rest)) := by
+      simp [encAll, flC, seq]
+    rw [e]
+    simp only [List.length_cons, flLoop]
+    rw [str_enc_ne_nil]
+    simp only [Bool.false_eq_true, if_false]
+    rw [lp_sound 1 x.1 _ hx'.1]
+    dsimp only
+    rw [str_enc_ne_nil]
+    simp only [Bool.false_eq_true, if_false]
+    rw [lp_sound 1 x.2 _ hx'.2]
+    dsimp only
+    rw [ih hx.2]
+
+theorem shLoop_sound (l : List Bytes) (rest : Bytes) (hrest : rest.isEmpty = false)
+    (h : l.all str.wf = true) :
+    shLoop l.length (encAll str l ++ rest) = (l, rest, false) := by
+  induction l with
+  | nil => simp [shLoop, encAll]
+  | cons x xs ih =>
+    have hx : str.wf x = true ∧ xs.all str.wf = true := by simpa using h
+    have e : encAll str (x :: xs) ++ rest = str.enc x ++ (encAll str xs ++ rest) := by
+      simp [encAll]
+    rw [e]
+    simp only [List.length_cons, shLoop]
+    rw [str_enc_ne_nil]
+    simp only [Bool.false_eq_true, if_false]
+    rw [lp_sound 1 x _ hx.1]
+    dsimp only
+    rw [ih hx.2]
+
+theorem optBool_enc (b : Bool) (rest : Bytes) : optBool (bool.enc b ++ rest) = (b, rest) := by
+  cases b <;> simp [optBool, bool]
+
+theorem beN1 (k : Nat) : beN 1 k = [UInt8.ofNat (k % 256)] := by
+  simp [beN, leN]
+
+theorem u8_toNat (k : Nat) (h : k < 256) : (UInt8.ofNat (k % 256)).toNat = k := by
+  rw [UInt8.toNat_ofNat_mod, Nat.mod_eq_of_lt h]
+
+/-! ### what the hand-written decoders accept is well-formed -/
+
+theorem flLoop_wf : ∀ (n : Nat) (bs : Bytes),
+    (flLoop n bs).1.all flC.wf = true ∧ (flLoop n bs).1.length ≤ n := by
+  intro n
+  induction n with
+  | zero => intro bs; simp [flLoop]
+  | succ n ih =>
+    intro bs
+    unfold flLoop
+    split
+    · simp
+    · split
+      · simp
+      · next key r hk =>
+        split
+        · simp
+        · split
+          · simp
+          · next addr r' ha =>
+            have := ih r'
+            have hkw := lp_decwf 1 _ _ _ hk
+            have haw := lp_decwf 1 _ _ _ ha
+            simp only [List.all_cons, List.length_cons, Bool.and_eq_true]
+            refine ⟨⟨?_, this.1⟩, by omega⟩
+            simp [flC, seq, hkw, haw]
+
+theorem shLoop_wf : ∀ (n : Nat) (bs : Bytes),
+    (shLoop n bs).1.all str.wf = true ∧ (shLoop n bs).1.length ≤ n := by
+  intro n
+  induction n with
+  | zero => intro bs; simp [shLoop]
+  | succ n ih =>
+    intro bs
+    unfold shLoop
+    split
+    · simp
+    · split
+      · simp
+      · next s r hs =>
+        have := ih r
+        have hsw := lp_decwf 1 _ _ _ hs
+        simp only [List.all_cons, List.length_cons, Bool.and_eq_true]
+        exact ⟨⟨hsw, this.1⟩, by omega⟩
+
+theorem blobList_all {α : Type} (dec : Bytes → Option α) (P : α → Prop)
+    (hP : ∀ blob a, blob.length < 65536 → dec blob = some a → P a) :
+    ∀ (n : Nat) (bs : Bytes) (l : List α) (rest : Bytes),
+      blobList dec n bs = some (l, rest) → (∀ a ∈ l, P a) ∧ l.length ≤ n := by
+  intro n
+  induction n with
+  | zero =>
+    intro bs l rest h
+    simp only [blobList] at h
+    injection h with h; injection h with h1 h2
+    subst h1; simp
+  | succ n ih =>
+    intro bs l rest h
+    simp only [blobList] at h
+    split at h
+    · cases h
+    · next blob r hb =>
+      split at h
+      · cases h
+      · next l' r' hr =>
+        injection h with h; injection h with h1 h2
+        have := ih _ _ _ hr
+        have hbl : blob.length < 65536 := by
+          have := lp_decwf 2 _ _ _ hb
+          simpa [lp] using this
+        subst h1
+        split
+        · next a ha =>
+          refine ⟨?_, by simp; omega⟩
+          intro x hx
+          rcases List.mem_cons.mp hx with rfl | hx
+          · exact hP blob _ hbl ha
+          · exact this.1 x hx
+        · exact ⟨this.1, by omega⟩
+
+/-- a top-level decode consumes at least the bytes its result re-encodes to -/
+theorem decodeTop_enc_le {c : Codec α} (hc : c.LenExact) (k : Nat) (bs : Bytes) (a : α)
+    (h : decodeTop k c bs = some a) : (c.enc a).length ≤ bs.length := by
+  unfold decodeTop at h
+  split at h
+  · cases h
+  · cases hd : c.dec bs with
+    | none => simp [hd] at h
+    | some p =>
+      obtain ⟨x, r⟩ := p
+      simp [hd] at h
+      subst h
+      have := hc _ _ _ hd
+      omega
+
+theorem advPrefix_lenExact (t : Nat) : (advPrefix t).LenExact := by
+  unfold advPrefix
+  split
+  · exact peek1_lenExact
+  · split
+    · exact fwdPrefix_lenExact
+    · split <;> exact bytesN_lenExact _
+
+theorem routeAdvertise_lenExact : routeAdvertiseC.LenExact := by
+  unfold routeAdvertiseC advRouteC encPathC
+  repeat' (first
+    | exact be_lenExact _ | exact bool_lenExact | exact bytesN_lenExact _ | exact lp_lenExact _
+    | (intro _; exact advPrefix_lenExact _)
+    | apply seq_lenExact | apply dep_lenExact | apply listN_lenExact | apply refine_lenExact)
+
+theorem routeWithdraw_lenExact : routeWithdrawC.LenExact := by
+  unfold routeWithdrawC wdRouteC
+  repeat' (first
+    | exact be_lenExact _ | exact bool_lenExact | exact bytesN_lenExact _ | exact lp_lenExact _
+    | (intro _; exact bytesN_lenExact _)
+    | apply seq_lenExact | apply dep_lenExact | apply listN_lenExact | apply refine_lenExact)
+
+theorem nodeInfoAdvertise_lenExact : nodeInfoAdvertiseC.LenExact := by
+  unfold nodeInfoAdvertiseC encInfoC; codec_lenexact
+
 end MM.C05
